@@ -430,6 +430,33 @@ int main(int argc, char **argv)
 				v_nontrivial(v_mix(ii + 1000, len));
 			}
 		}
+		/* (F) medium lengths: EVERY length behind the dense sweep up to two full periods of the largest block structure any kernel has
+		 * (crc32_iscsi_*: 3 x 1024-byte streams = 3072 bytes, recombined through a 128-entry constant table indexed by the chunk count of
+		 * a partial block; Adler: 5552) - one placement (end at a guard page / page-aligned start alternating), xorshift data, one seed;
+		 * the reference value is carried forward byte by byte */
+		if (direct) {
+			int M = v_thorough ? 20000 : 6400;
+			static uint8_t *md;
+			if (!md) {
+				md = malloc(20000 + 64);
+				fill_xorshift(md, 20000 + 64, 777);
+			}
+			uint64_t sd = seed_for(f, 2);
+			uint64_t cur = ref_fam(f, sd, md, N);
+			for (int len = N + 1; len <= M; len++) {
+				cur = ref_fam(f, cur, md + len - 1, 1);
+				if (!v_mine(len))
+					continue;
+				if (v_deadline_hit() || nfail > 40)
+					goto out;
+				uint8_t *p = len & 1 ? g_alloc(len, G_END) : g_alloc_off(len, 0);
+				memcpy(p, md, len);
+				check_case(im, sd, p, len, cur, "medium-xorshift", len & 1 ? "E" : "S+0");
+				g_reset();
+				v_count("medium_length_cases", 1);
+			}
+			v_nontrivial(v_mix(ii + 2000, M));
+		}
 	}
 out:
 	if (v_shard == 0) {
